@@ -75,12 +75,12 @@ pub fn check_relative(p: &str, b: &str) -> CaseResult {
 }
 
 fn deep_path() -> impl Strategy<Value = String> {
-    prop::collection::vec(prop::sample::select(&["a", "b", "ab", "a.b", "é", "éé", "日本", "d e", "..z", "😀"][..]), 0..=12)
+    prop::collection::vec(prop::sample::select(&["a", "b", "ab", "a.b", "é", "éé", "日本", "d e", "..z", "😀", "~", "n~", "$HOME", "${HOME}", "$"][..]), 0..=12)
         .prop_map(|v| if v.is_empty() { "/".to_string() } else { format!("/{}", v.join("/")) })
 }
 
 pub fn run(c: &Ctx) {
-    c.set_rule("exhaustive: all ordered pairs of the 121 clean absolute paths with <=4 components over {a,ab,b} (one name is a string prefix of another); then seeded random pairs up to depth 12 over 9 names (multi-byte, spaces, dots) with a shared random prefix in half of them. Oracle: result relative, (../)*normal*, clean(base/result)==path, #'..' == |base|-|common prefix|. Non-trivial = path!=base and the common prefix is shorter than both (needs '..' and normal parts); distinct by pair.");
+    c.set_rule("exhaustive: all ordered pairs of the 121 clean absolute paths with <=4 components over {a,ab,b} (one name is a string prefix of another) and of the 40 with <=3 components over {~,$HOME,n~} (names are opaque to relative()); then seeded random pairs up to depth 12 over 15 names (multi-byte, spaces, dots, '~' and '$') with a shared random prefix in half of them. Oracle: result relative, (../)*normal*, clean(base/result)==path, #'..' == |base|-|common prefix|. Non-trivial = path!=base and the common prefix is shorter than both (needs '..' and normal parts); distinct by pair.");
     let paths = all_paths(&["a", "ab", "b"], 4);
     let n = paths.len() as u64;
     par_for(n * n, 512, |i| {
@@ -96,7 +96,21 @@ pub fn run(c: &Ctx) {
         }
         c.judge("relative", &json!({"path":p,"base":b}), check_relative(p, b));
     });
-    c.note("exhaustive_space", format!("{} ordered pairs", n * n));
+    // names are opaque: characters that mean something to expand() (home, variables) are ordinary here
+    let paths2 = all_paths(&["~", "$HOME", "n~"], 3);
+    let n2 = paths2.len() as u64;
+    par_for(n2 * n2, 512, |i| {
+        let (p, b) = (&paths2[(i / n2) as usize], &paths2[(i % n2) as usize]);
+        mark("relative", p);
+        c.eval(1);
+        let cm = common(p, b);
+        if p != b && cm < ncomps(p) && cm < ncomps(b) {
+            c.nontrivial(fp(&(p, b)));
+        }
+        c.class("exhaustive:expansion-characters-in-names");
+        c.judge("relative", &json!({"path":p,"base":b}), check_relative(p, b));
+    });
+    c.note("exhaustive_space", format!("{} + {} ordered pairs", n * n, n2 * n2));
     c.set_exhaustive(true);
     let cases = c.tier.pick(100_000, 2_000_000);
     let strat = || {
